@@ -399,15 +399,19 @@ _ADDED = {
     "C01": ("Episodes added: governance pause/resume of a chain's services (freeze+activate, approved / rejected update, rejected "
             "logout, service freeze+activate by real votes) followed by IBTPs from and to the chain; signature storm blocks (3-40 "
             "non-local transfers of the funded actors, every second to fourth with a flipped signature byte); xvm episodes (WASM "
-            "contract deployed and invoked in two or three later blocks)."),
+            "contract deployed and invoked in two or three later blocks); timeout bursts (2-7 requests of different pairs with one "
+            "timeout value in one block)."),
+    "C02": ("One case in three has a pair whose source service (chainB:u1) is registered as unordered."),
+    "C10": ("Realisation flag scalarNoise: the reverted noise transaction first writes nonce and balance of every account of W."),
     "C08": ("One block in six is a signature storm: 20-300 further non-local transfers, every first to third with a flipped "
             "signature byte, plus 2-12 non-local IBTPs whose proof does not verify, half of them with a bad signature as well."),
     "C13": ("A flushed block may stay uncommitted while the next block writes, takes snapshots, reverts and ends transactions; "
             "the Commit precedes the next flush, a reopen and (known finding KF-C13-query-between-flush-and-commit) prefix queries."),
     "C16": ("Two cases in three have an unordered destination service chainB:u1 (with or without a blacklist entry) with three "
-            "pairs to it."),
-    "C17": ("The first pass has 26 well-formed privileged calls, five of them on chainD, whose admin set was reduced by an "
-            "approved update after registration."),
+            "pairs to it. An open service logout is followed by the logout of its chain and such a pair is concluded service-first "
+            "with a rejection more often than by chance."),
+    "C17": ("The first pass has 30 well-formed privileged calls, five of them on chainD, whose admin set was reduced by an "
+            "approved update after registration, four of them transaction-manager entry points on an open one-to-many record."),
     "C18": ("Commit mode 'overtaken report': the report of an earlier block arrives after the report of a later block with "
             "higher nonces of the same account."),
     "C19": ("Commit mode 'overtaken report': the report of an earlier block arrives after the report of a later block with "
